@@ -5,10 +5,12 @@ import (
 	"errors"
 	"io"
 	"math/rand"
+	"reflect"
 	"time"
 
 	"github.com/bluenviron/gomavlib/v3/pkg/dialect"
 	"github.com/bluenviron/gomavlib/v3/pkg/frame"
+	"github.com/bluenviron/gomavlib/v3/pkg/message"
 )
 
 var errSentinel = errors.New("verif: injected transport error")
@@ -81,6 +83,9 @@ type streamCfg struct {
 	pauseAt int // the transport is silent for `pause` before the byte at this offset
 	pause   time.Duration
 	bufSize int // size of the caller's bufio.Reader (0 = 512, what the library's own constructors use)
+	// the caller treats what Read returned as its own: each result is looked at the moment it is returned and then
+	// overwritten in place (every field of a decoded message, every payload byte of a raw one) before the next Read
+	ownEdits bool
 }
 
 // runStream drives a real frame.Reader over the stream until it reports a transport error.
@@ -106,10 +111,11 @@ func runStream(data []byte, errat int, errkind string, sched []int, withData boo
 	// The results are converted only after the whole stream has been read: a frame handed to the caller must stay
 	// what it was while the reader goes on (it must not alias the reader's buffers).
 	type rawRes struct {
-		fr  frame.Frame
-		err error
-		pan bool
-		cur int
+		fr   frame.Frame
+		err  error
+		pan  bool
+		cur  int
+		snap *readRes
 	}
 	var raws []rawRes
 	for calls := 0; calls < limit+8; calls++ {
@@ -123,6 +129,24 @@ func runStream(data []byte, errat int, errkind string, sched []int, withData boo
 			rr.fr, rr.err = r.Read()
 		}()
 		rr.cur = src.drawn - br.Buffered()
+		if cfg.ownEdits && !rr.pan {
+			snap := classify(rr.fr, rr.err)
+			rr.snap = &snap
+			if rr.err == nil && rr.fr != nil {
+				func() {
+					defer func() { recover() }() //nolint:errcheck
+					switch m := rr.fr.GetMessage().(type) {
+					case *message.MessageRaw:
+						for i := range m.Payload {
+							m.Payload[i] = 0xEE
+						}
+					case nil:
+					default:
+						scribble(reflect.ValueOf(m).Elem())
+					}
+				}()
+			}
+		}
 		raws = append(raws, rr)
 		if rr.pan {
 			break
@@ -137,7 +161,9 @@ func runStream(data []byte, errat int, errkind string, sched []int, withData boo
 	var out []ResJ
 	for _, rr := range raws {
 		res := readRes{K: "panic"}
-		if !rr.pan {
+		if rr.snap != nil {
+			res = *rr.snap
+		} else if !rr.pan {
 			res = classify(rr.fr, rr.err)
 		}
 		j := ResJ{K: res.K, F: res.F, Dec: res.Dec, Cur: rr.cur}
@@ -175,6 +201,16 @@ func (e *streamEmitter) put(g int, data []byte, errat int, errkind string, sched
 	}
 	e.n++
 	res := runStream(data, errat, errkind, sched, withData, cfg)
+	// the same stream once more through a fresh reader whose caller overwrites everything it is handed before it reads
+	// on: the results must be the same. Only if they are not is the second run recorded too (the monitor judges it)
+	var res2 []ResJ
+	if cfg.pause == 0 && len(data) < 1<<16 {
+		cfg2 := cfg
+		cfg2.ownEdits = true
+		if r2 := runStream(data, errat, errkind, sched, withData, cfg2); !reflect.DeepEqual(res, r2) {
+			res2 = r2
+		}
+	}
 	key := B{}
 	if cfg.key != nil {
 		key = B(cfg.key[:])
@@ -188,6 +224,10 @@ func (e *streamEmitter) put(g int, data []byte, errat int, errkind string, sched
 	}
 	e.rec.Put(M{"e": "STREAM", "g": g, "in": B(data), "errat": errat, "errkind": errkind, "sched": sched,
 		"with_data": withData, "dl": dl, "key": key, "results": res, "clean": clean, "tag": tag, "complete": !e.incomplete, "buf": cfg.bufSize})
+	if res2 != nil {
+		e.rec.Put(M{"e": "STREAM", "g": e.group(), "in": B(data), "errat": errat, "errkind": errkind, "sched": sched,
+			"with_data": withData, "dl": dl, "key": key, "results": res2, "clean": clean, "tag": tag + "_caller_overwrites_what_it_got", "complete": !e.incomplete, "buf": cfg.bufSize})
+	}
 }
 
 // chunkings returns the chunk schedules to try for a stream of n bytes with region boundaries cuts.
